@@ -6,6 +6,23 @@ HERE = os.path.dirname(os.path.abspath(__file__))
 PY = '/venv/bin/python'
 
 CHECKS = {
+    'C01': ('bounded exhaustive enumeration of OID trees x module placement x declaration order x spelling x node kind, '
+            'compiled through the real pipeline and compared with ground-truth OIDs',
+            'Ground-truth OID trees are built first; every labelled tree (<=3 / <=4 nodes), every partition into modules, '
+            'every declaration order, every sub-identifier spelling and every OID-bearing declaration kind is rendered '
+            'and compiled with MibCompiler.compile() and both code generators; JSON oid, executed pysnmp constructor '
+            'argument and status.oids / identity / compliance / enterprise must equal the ground truth.', '5.C01'),
+    'C03': ('bounded exhaustive enumeration of declaration sequences compiled to JSON against a reference record model',
+            'All sequences of <=2 / <=3 declarations over 13 declaration kinds (x genTexts), optional-part subsets and '
+            'identifier styles are compiled with the real JSON back end; the document must parse, hold exactly the '
+            'declared symbols and each entry must carry its own declaration\'s class, node type, status, access, units, '
+            'revisions.', '5.C03'),
+    'C05': ('bounded exhaustive enumeration of syntaxes, refinements, type chains and DEFVAL notations against a '
+            'denotational reference model, both back ends',
+            'Every type word x grammar-allowed refinement (lists of 1..2/3 alternatives over literal classes) x placement, '
+            'and every DEFVAL notation x base type x type-chain shape (inline / derived / TC / imported) is compiled; '
+            'constraints must be equal in order and value, defaults must denote the written value under the base type '
+            'resolved by an independent walker; pysnmp output is executed against a recording builder.', '5.C05'),
     'C02': ('bounded exhaustive enumeration of MIB specs x layouts against a reference model of the parser',
             'Every catalogue spec (all clause kinds x optional-part subsets, all SYNTAX alternatives, numeric token '
             'classes at their boundaries) is rendered and parsed by the real parser under all three dialects; the tree '
